@@ -68,7 +68,8 @@ Definition step (s : lstate) (e : levent) : lstate * list action :=
       match e with
       | ERecv k panics =>
           if panics then
-            (mkLS (Some LPanicked) (ls_hb_incs s) (ls_peers s) (ls_dead s) (ls_evals s), [ALock])
+            (* the guard is dropped while unwinding: tokio's Mutex does not poison *)
+            (mkLS (Some LPanicked) (ls_hb_incs s) (ls_peers s) (ls_dead s) (ls_evals s), [ALock; AUnlock])
           else
             (mkLS None (ls_hb_incs s + 1) (ls_peers s + learns k) (ls_dead s) (ls_evals s),
              [ALock; AUnlock] ++ match reply_of k with Some o => [ASend o] | None => [] end)
